@@ -9,13 +9,17 @@ sys.path.insert(0, HERE)
 
 def main():
     ap = argparse.ArgumentParser()
-    ap.add_argument('prop')
+    ap.add_argument('prop', nargs='?')
+    ap.add_argument('--selftest', action='store_true')
     ap.add_argument('--tier', default=os.environ.get('VERIF_TIER', 'quick'))
     ap.add_argument('--replay')
     ap.add_argument('--budget', type=float)
     ap.add_argument('--procs', type=int)
     a = ap.parse_args()
     from sx import harness
+    if a.selftest:
+        from sx import selftest
+        sys.exit(selftest.main())
     if a.replay:
         sys.exit(harness.replay_file(a.prop, a.replay))
     seed = int(os.environ.get('VERIF_SEED', '0') or 0)
